@@ -68,6 +68,9 @@ func newEngine(repo, trustedDir string, extraTrusted ...string) (*Engine, error)
 			}
 		}
 	}
+	if err := cs.expandModSets(); err != nil {
+		return nil, err
+	}
 	e.contracts = cs
 	return e, nil
 }
